@@ -30,11 +30,15 @@ namespace nmtools::index
                 at(res,0_ct) = n;
             else {
                 using element_t = meta::get_index_element_type_t<return_t>;
-                auto shape_take_impl = [&](auto i){
-                    using common_t = meta::promote_index_t<axis_t,decltype(i)>;
-                    at(res,i) = ((common_t)i == (common_t)axis) ? (element_t)n : (element_t)at(shape,i);
-                };
                 [[maybe_unused]] auto dim = len(shape);
+                // a negative axis counts from the end
+                auto normalized_axis = static_cast<nm_index_t>(axis);
+                if (normalized_axis < 0) {
+                    normalized_axis += static_cast<nm_index_t>(dim);
+                }
+                auto shape_take_impl = [&](auto i){
+                    at(res,i) = (static_cast<nm_index_t>(i) == normalized_axis) ? (element_t)n : (element_t)at(shape,i);
+                };
                 if constexpr (meta::is_resizable_v<return_t>)
                     res.resize(dim);
 
@@ -83,10 +87,14 @@ namespace nmtools::index
             impl::compute_indices(res, offset, shape, strides);
         }
         else {
+            // a negative axis counts from the end
+            auto normalized_axis = static_cast<nm_index_t>(axis);
+            if (normalized_axis < 0) {
+                normalized_axis += static_cast<nm_index_t>(len(shape));
+            }
             auto take_impl = [&](auto i){
                 auto dst_i = at(index,i);
-                using common_t = meta::promote_index_t<axis_t,decltype(i)>;
-                at(res, i) = ((common_t)i == (common_t)axis) ? at(indices,dst_i) : dst_i;
+                at(res, i) = (static_cast<nm_index_t>(i) == normalized_axis) ? at(indices,dst_i) : dst_i;
             };
             if constexpr (meta::is_fixed_index_array_v<index_t>) {
                 constexpr auto DIM = meta::len_v<index_t>;
